@@ -87,7 +87,11 @@ def handle (d : DSt) (n : Nat) (line : String) : IO DSt := do
   | [] => return d
   | "F" :: rest =>
     match parseForest rest with
-    | some (f, l) => return { d with forest := some f, localZone := l, forestTxt := line.trimAscii.toString, nForests := d.nForests + 1 }
+    | some (f, l) =>
+      -- the forest must be one a configuration can load (hypothesis `Loaded` of the completeness theorems, `loadedB_sound`)
+      if !loadedB f (rest.length - 2) harnessLevelBound then
+        IO.println s!"BADLINE line={n} forest-not-loadable"
+      return { d with forest := some f, localZone := l, forestTxt := line.trimAscii.toString, nForests := d.nForests + 1 }
     | none => IO.println s!"BADLINE line={n}"; return d
   | "M" :: rest =>
     let (pre, post) := splitBar rest
@@ -134,6 +138,12 @@ def handle (d : DSt) (n : Nat) (line : String) : IO DSt := do
         if touchesOnlySenderEndpoint m && o != (observe f m c o) then
           IO.println s!"MISMATCH line={n} case={d.caseNo} kind=confined method={mname} impl=other model=own-endpoint-only"
           d := { d with mismatches := d.mismatches + 1 }
+        -- the property on what the implementation's handlers are told about the sender
+        match specOrigin c { hasEndpoint := hasEp, fromZone := fz } with
+        | some cl =>
+          IO.println s!"SPECFAIL line={n} case={d.caseNo} clause={cl.name} method={mname} fc13a=0"
+          d := { d with specfails := d.specfails + 1 }
+        | none => pure ()
         -- the property on the implementation's own observation
         match specStep f m c o with
         | some cl =>
